@@ -270,7 +270,8 @@ func runC07(c *eng.Ctx) {
 	// ---- R07.7 failover hygiene
 	c.Rule("R07.7", "K3")
 	ruleFailoverStatusBelongsToItsPartition(c)
-	c.WhoMayCall("resetFailovers", []string{"server.metadataAPI.resetFailovers"}, []string{"server.(*metadataAPI).Reset", "server.(*metadataAPI).LostLeadership"}, []string{"server.(*metadataAPI).Reset", "server.(*metadataAPI).LostLeadership"})
+	c.WhoMayCall("resetFailovers", []string{"server.metadataAPI.resetFailovers"}, []string{"server.(*metadataAPI).reset", "server.(*metadataAPI).LostLeadership"}, []string{"server.(*metadataAPI).reset", "server.(*metadataAPI).LostLeadership"})
+	c.WhoMayCall("reset", []string{"server.metadataAPI.reset"}, []string{"server.(*metadataAPI).Reset", "server.(*metadataAPI).ResetForRestore"}, []string{"server.(*metadataAPI).Reset", "server.(*metadataAPI).ResetForRestore"})
 	c.WhoMayCall("LostLeadership", []string{"server.metadataAPI.LostLeadership"}, []string{"server.(*Server).leadershipLost"}, []string{"server.(*Server).leadershipLost"})
 	if fn := c.Fn("server.(*metadataAPI).resetFailovers"); fn != nil {
 		ok := len(eng.CallsIn(fn, "server.failoverStatus.cancel")) >= 2
@@ -394,6 +395,7 @@ func runC07(c *eng.Ctx) {
 	c.Floor(7)
 	c.Rule("R07.3", "K1")
 	ruleWitnessesAreCurrent(c)
+	ruleWitnessReportsExpire(c)
 	c.Floor(2)
 
 }
